@@ -112,6 +112,20 @@ def run_c05(tier, seed, replay=None):
             ["dfs", ["match", a, ["arm", ["pats", ["ilist", "h", "_"]], g1, g2]]],
         ])
         cases.append(mk_case([pairs], ["q", "r"], [shape]))
+    # clauses that can never succeed (a literal false) among several live ones: the order of the others must not change
+    for _ in range(n // 5):
+        m = rnd.randint(3, 6)
+        vals = rnd.sample(range(1, 10), m)
+        clauses = []
+        for v in vals:
+            live = rnd.choice([["eq", "q", v], ["conj", ["eq", "q", v], ["eq", "r", v + 10]], ["lib", "member", "q", ["list", v, v + 20]]])
+            dead = rnd.choice(["false", ["conj", "false", ["eq", "q", v]], ["conj", ["eq", "q", v], "false"]])
+            clauses.append(dead if rnd.random() < 0.35 else live)
+        shape = rnd.choice([["dfs", ["cond"] + clauses],
+                            ["dfs", ["eq", "r", 0], ["cond"] + clauses],
+                            ["dfs", ["lib", "member", "r", ["list", 1, 2]], ["cond"] + clauses],
+                            ["dfs", ["match", ["list", 1], ["arm", ["pats", "_"], ["cond"] + clauses]]]])
+        cases.append(mk_case([], ["q", "r"], [shape]))
     # the known finding's witness, so that it is reported on every run while it exists
     cases.append(mk_case([], ["q"], [["dfs", ["cond", ["eq", "q", ["list", 3]], "true"]]]))
     return pcheck.run_check("C05", tier, seed, cases, "exact", oracle_c05, cone=CONE, replay=replay, known_classifier=known_c05,
@@ -187,6 +201,11 @@ def oracle_c07(cases, impl, model):
                 fails.append({"case_index": k, "what": "branch answers %s are never produced: the search does not return (%s)" % (exp, i.error)})
             continue
         got = {a[0][0] for a in i.answers}
+        for v, least in (c.get("expect_counts") or {}).items():
+            have = sum(1 for a in i.answers if a[0][0] == str(v))
+            if have < least:
+                fails.append({"case_index": k, "what": "loop body answer %s delivered %d times within %d answers / %d steps, at least %d expected: "
+                              "later rounds of the loop are starved by a body that does not finish" % (v, have, c["maxans"], c["budget"], least)})
         missing = [v for v in exp if str(v) not in got]
         if missing:
             fails.append({"case_index": k, "what": "branch answers %s not produced within %d answers / %d steps (starved)" %
@@ -239,10 +258,24 @@ def run_c07(tier, seed, replay=None):
         c = mk_case([spin, count], ["q"], body, maxans=maxans, budget=budget, expect_values=vals)
         c["maxans"], c["budget"] = maxans, budget
         cases.append(c)
+    # loop { g } is the fair disjunction "g or loop { g }": with a body that yields an answer and then runs forever, the
+    # later rounds must still be started and deliver the answer again and again
+    for _ in range(n // 3):
+        v = rnd.randint(1, 9)
+        silent = rnd.choice([["lib", "never"], ["call", "spin", "q"], ["fresh", ["z"], ["call", "spin", "z"]]])
+        inner = ["cond", ["eq", "q", v], silent] if rnd.random() < 0.5 else ["cond", silent, ["eq", "q", v]]
+        shape = rnd.choice([[["loop", inner]],
+                            [["cond", ["loop", inner], ["loop", ["eq", "q", v + 10]]]],
+                            [["cond", ["eq", "q", v + 20], ["loop", inner]]],
+                            [["fresh", ["w"], ["loop", ["cond", ["eq", "w", 1], silent]], ["eq", "q", v]]]])
+        c = mk_case([spin, count], ["q"], shape, maxans=12, budget=6000, expect_values=[v], expect_counts={v: 3})
+        c["maxans"], c["budget"] = 12, 6000
+        cases.append(c)
     return pcheck.run_check("C07", tier, seed, cases, "exact", oracle_c07, cone=CONE, replay=replay,
         rule="disjunctions of 2-4 branches mixing silent divergers (never, a relation recursing through fresh only), infinite producers "
              "(always, loop, a counting relation), finite goals and nested disjunctions, optionally behind another infinite disjunction; "
-             "every value a branch produces must appear among the first 40 answers within 6000 engine steps; step-exact against the model; "
+             "every value a branch produces must appear among the first 40 answers within 6000 engine steps; loops whose body answers and "
+             "then runs forever must deliver the answer at least 3 times among 12; step-exact against the model; "
              "non-trivial = at least one answer",
         extra_cov=lambda cs, i, m: {"cases_with_diverging_branch": sum(1 for c in cs if "never" in c["line"] or "spin" in c["line"])})
 
@@ -307,6 +340,20 @@ def run_c08(tier, seed, replay=None):
         shape = rnd.choice([[outer, inner] + ([["eq", "q", 9]] if outer != "onceo" and rnd.random() < 0.3 else []),
                             [outer, ["conj", inner] + rest]])
         cases.append(mk_case([], ["q", "r"], [shape], maxans=12, budget=2500))
+    # a clause whose head succeeds and whose rest can never succeed (a literal false, possibly nested): the operator
+    # commits to it all the same - nothing from the later clauses may leak out
+    for _ in range(n // 5):
+        vals = rnd.sample([1, 2, 3, 4], rnd.randint(1, 3))
+        op = rnd.choice(["conda", "condu"])
+        head = rnd.choice([["eq", "q", vals[0]], ["lib", "member", "q", ["list"] + vals], "true", ["cond"] + [["eq", "q", v] for v in vals],
+                           ["neq", "q", 7]])
+        dead = rnd.choice([["false"], [["eq", "r", 1], "false"], ["false", ["eq", "r", 1]], [["conj", "false"]], [["cond", "false"]],
+                           [["fresh", ["z"], "false"]]])
+        first = rnd.choice([[], [["conj", ["eq", "q", 8], ["eq", "q", 9]]], [["conj", "false", ["eq", "q", 5]]]])
+        later = rnd.choice([[["eq", "q", 6]], [["conj", ["eq", "q", 6], ["eq", "r", 6]], "true"], ["true"]])
+        shape = [op] + first + [["conj", head] + dead] + later
+        pre = [["eq", "r", 0]] if rnd.random() < 0.3 and dead[0] == "false" else []
+        cases.append(mk_case([], ["q", "r"], pre + [shape], maxans=12, budget=2500))
     for _ in range(n // 10):
         v = rnd.randint(1, 5)
         cases.append(mk_case([], ["q"], [[rnd.choice(["condu", "onceo"]), ["conj", ["lib", "always"], ["eq", "q", v]]]],
@@ -365,6 +412,17 @@ def run_c09(tier, seed, replay=None):
                           ["eq", ["list", "a", "q", "b"], ["list", 1, "r", "a"]], ["eq", ["list", "a", "b", "r"], ["list", "b", 7, "q"]]])
         body = [["fresh", ["a", "b"], ["dom", "q", ["i", lo, lo + 2]], ["dom", "r", ["i", lo, lo + 3]], uni]]
         hs.append(mk_case([], ["q", "r"], body, maxans=30, budget=4000, mode="bag", fd=True))
+    # laziness to the step: the first answer is there after finitely many steps; whatever the search would do NEXT - here
+    # starting a committed-choice goal whose guard never returns, d pauses away - must not be run by take(1)
+    spinr = ["def", "spin", ["params", "x"], "closure", ["fresh", ["y"], ["call", "spin", "y"]]]
+    for op in ["onceo", "conda", "condu"]:
+        for d in range(0, 26 if tier == "quick" else 60):
+            silent = ["lib", "never"] if d % 2 == 0 or tier == "quick" else ["call", "spin", "q"]
+            g = [op, silent] if op == "onceo" else [op, ["conj", silent, ["eq", "q", 2]]]
+            for j_ in range(d):
+                g = ["conj", g, "true"]          # a conjunction whose start only suspends g: one more step
+            first = ["eq", "q", 1] if tier == "quick" or d % 3 else ["eq", "q", ["list", 1, 2]]
+            cases.append(mk_case([spinr], ["q"], [["cond", first, g]], maxans=1, budget=1500, must_answer=True))
     cases = hs + cases            # among the first cases: they are also re-run in fresh processes
     for c in hs * 3:
         cases.append(dict(c))
@@ -381,6 +439,9 @@ def run_c09(tier, seed, replay=None):
                 continue
             if c.get("must_answer") and len(i.answers) < len(model[k].answers):
                 fails.append({"case_index": k, "what": "taking the first answers of a productive query delivered %d of the %d answers available within the step budget" % (len(i.answers), len(model[k].answers))})
+            if c.get("must_answer") and i.end == "diverged" and model[k].end == "limit" and len(i.answers) == len(model[k].answers):
+                fails.append({"case_index": k, "what": "the %d answers asked for were delivered, but on the way the iterator ran a further search step that "
+                              "does not return (a committed-choice guard that diverges): take(n) on the plain library does not come back" % len(i.answers)})
             if "notfused" in (i.end or ""):
                 fails.append({"case_index": k, "what": "the iterator returned an answer after returning None"})
             key = c["line"]
